@@ -160,7 +160,10 @@ ALL_OPERATIONS.add('C02')
 # operator table is the reference for theirs
 MODULE_FILTER = {
     'C19': (('dd._copy', 'dd._utils', 'dd._parser', 'dd._abc'),
-            ('dd.bdd.BDD.apply',)),
+            # ... and what that table dispatches to: the back ends are
+            # compared with the meaning these give to each operator
+            ('dd.bdd.BDD.apply', 'dd.bdd.BDD.ite', 'dd.bdd.BDD._ite',
+             'dd.bdd.BDD.quantify', 'dd.bdd.BDD._quantify')),
 }
 
 
